@@ -2351,6 +2351,8 @@ def normalize_module(tree: ast.Module, extern=None) -> ast.Module:
             n2.single_use_dicts(n)
             n2.scalarise_local_dicts(n)
             n2.first_match_loops(n)
+            if n2.chain_to_appends(n):
+                n2.merge_appends(n)
     if getattr(tree, "_ft", None) is not None:
         # (a table key that became a literal once a helper was in place)
         ft_ = tree._ft
